@@ -3,6 +3,7 @@
 package verifharness
 
 import (
+	"bytes"
 	"fmt"
 	"math/big"
 	"strings"
@@ -281,10 +282,43 @@ func sharingHistories(out *caseOut, cfg string, h tree.HashFn, salt int64) {
 			cases = append(cases, sc{ct, ops})
 		}
 	}
+	// the same for small byte vector views (Get hands out a copy; Copy must be detached too)
+	{
+		b4 := &Ty{Kind: "bytes", N: 4}
+		bt := &Ty{Kind: "cont", Fields: []*Ty{{Kind: "vec", Elem: b4, N: 2}, b4, {Kind: "list", Elem: &Ty{Kind: "bytes", N: 20}, N: 3}}}
+		litB := srcSpec{kind: "lit", t: &Ty{Kind: "bytes", N: 20}, v: &Val{Kind: "x", Bytes: bytes.Repeat([]byte{0xcd}, 20)}}
+		ops := []hop{{kind: "get", h: 0, i: 0}, {kind: "get", h: 0, i: 2}, {kind: "append", h: 2, src: litB}, {kind: "htr", h: 0}, {kind: "snap", h: 0},
+			{kind: "get", h: 1, i: 1}, {kind: "get", h: 0, i: 1}, {kind: "get", h: 2, i: 0},
+			{kind: "rootwrite", h: 3, i: 5}, {kind: "htr", h: 0}, {kind: "memo"}, {kind: "ser", h: 0},
+			{kind: "copy", h: 4}, {kind: "rootwrite", h: 6, i: 6}, {kind: "htr", h: 4}, {kind: "htr", h: 6}, {kind: "htr", h: 0},
+			{kind: "rootwrite", h: 5, i: 7}, {kind: "htr", h: 0}, {kind: "ser", h: 0}, {kind: "set", h: 0, i: 1, src: srcSpec{kind: "h", h: 4}}, {kind: "rootwrite", h: 4, i: 8}, {kind: "htr", h: 0}, {kind: "ser", h: 0}}
+		cases = append(cases, sc{bt, ops})
+	}
 	for _, c := range cases {
 		s := &hstate{h: h, count: &hashCalls}
 		s.push(c.ty, c.ty.Def().Default(nil))
 		histCase(out, "share", cfg, c.ty, nil, "default", c.ops, runScript(s, c.ops))
+	}
+	// a Root decoded on its own (all zero, and not), then written in place: nothing shared may change
+	for k, bs := range [][]byte{make([]byte, 32), bytes.Repeat([]byte{3}, 32)} {
+		ty := rootT
+		v := &Val{Kind: "x", Bytes: bs}
+		vw, err := deserialize(ty, bs)
+		if err != nil {
+			continue
+		}
+		s := &hstate{h: h, count: &hashCalls}
+		s.push(ty, vw)
+		ops := []hop{{kind: "htr", h: 0}, {kind: "copy", h: 0}, {kind: "rootwrite", h: 1, i: uint64(50 + k)}, {kind: "htr", h: 0}, {kind: "rootwrite", h: 0, i: uint64(60 + k)}, {kind: "htr", h: 0}, {kind: "htr", h: 1}}
+		histCase(out, "share", cfg, ty, v, "ctor", ops, runScript(s, ops))
+	}
+	// ... and every default list / bool of the process must still be what it was
+	{
+		ty := &Ty{Kind: "cont", Fields: []*Ty{{Kind: "list", Elem: rootT, N: 4}, boolT, {Kind: "bitlist", N: 9}}}
+		s := &hstate{h: h, count: &hashCalls}
+		s.push(ty, ty.Def().Default(nil))
+		ops := []hop{{kind: "htr", h: 0}, {kind: "ser", h: 0}, {kind: "get", h: 0, i: 0}, {kind: "append", h: 1, src: litRoot}, {kind: "htr", h: 0}}
+		histCase(out, "share", cfg, ty, nil, "default", ops, runScript(s, ops))
 	}
 }
 
